@@ -131,6 +131,18 @@ func monC16() mc.Monitor {
 				out = append(out, v("C16", "reload-changed-queue-usage", "usage", "accepted reload to document #%d changed the running state of queue %s: %s -> %s", st.Op.N, p, dynOf(q), dynOf(nq)))
 			}
 		}
+		// ---- a pending quota change preemption keeps its start time when the reload changes neither the maximum nor the
+		// delay of the queue (the class of the start time is part of the state: due / within 100 minutes / later)
+		for _, p := range sortedKeys(pre.Queues) {
+			q, nq := pre.Queues[p], post.Queues[p]
+			if nq == nil || q.QPWhen == "" || world.J(q.Max) != world.J(nq.Max) || q.QuotaDelay != nq.QuotaDelay {
+				continue
+			}
+			counts["C16.quota-preemption-start-kept"]++
+			if nq.QPWhen != q.QPWhen && nq.QPWhen != "" { // cleared is fine: the usage is no longer above the maximum
+				out = append(out, v("C16", "reload-moved-quota-preemption-start", q.QPWhen+"->"+nq.QPWhen, "accepted reload to document #%d changed neither the maximum nor the quota preemption delay (%s) of queue %s, but its pending quota preemption moved from '%s' to '%s'", st.Op.N, q.QuotaDelay, p, q.QPWhen, nq.QPWhen))
+			}
+		}
 		// ---- the new limits and properties apply to every queue the document defines (differential: fresh load)
 		c16Mu.Lock()
 		fresh := c16Cache[doc]
@@ -426,9 +438,14 @@ func init() {
 	mc.Register(&mc.ScenarioDef{Scn: scnReload("reload-1app", []world.Op{op("NODE_ADD", "n1"), op("APP_ADD", "app1"), op("ASK", "a1"), op("SCHEDULE")}), Monitors: []mc.Monitor{monC16()}, Prepare: c16Prepare})
 	mc.Register(&mc.ScenarioDef{Scn: scnReload("reload-3apps", []world.Op{op("NODE_ADD", "n1"), op("APP_ADD", "app1"), op("ASK", "a1"), op("SCHEDULE"), op("APP_ADD", "app2"), op("ASK", "b1"), op("SCHEDULE"),
 		op("APP_ADD", "app3"), op("ASK", "c1"), op("SCHEDULE"), op("ASK", "a2")}), Monitors: []mc.Monitor{monC16()}, Prepare: c16Prepare})
+	// a queue above a lowered maximum with a quota preemption delay of hours, and further reloads that do not touch it
+	qd := scnPreemptG("reload-quota-delay", true, 1, 4, "1h", "3h")
+	qd.Configs = append(qd.Configs, strings.Replace(qd.Configs[1], "          - name: b\n", "          - name: c\n          - name: b\n", 1))
+	qd.Alphabet = []string{"SCHEDULE", "RELEASE", "CONFIG", "QUOTA_PREEMPT"}
+	mc.Register(&mc.ScenarioDef{Scn: qd, Monitors: []mc.Monitor{monC16()}, Prepare: c16Prepare})
 	registerCheck(&CheckDef{Prop: "C16", Level: "model_checking", Technique: tE1,
-		Quick:       []Run{{Scenario: "reload-1app", Depth: 4, MapModes: []int{1}}, {Scenario: "reload-3apps", Depth: 3, MapModes: []int{1}}},
-		Thorough:    []Run{{Scenario: "reload-1app", Depth: 6, MapModes: []int{1, 2}}, {Scenario: "reload-3apps", Depth: 5, MapModes: []int{1, 2}}},
+		Quick:       []Run{{Scenario: "reload-1app", Depth: 4, MapModes: []int{1}}, {Scenario: "reload-3apps", Depth: 3, MapModes: []int{1}}, {Scenario: "reload-quota-delay", Depth: 4, MapModes: []int{1}}},
+		Thorough:    []Run{{Scenario: "reload-1app", Depth: 6, MapModes: []int{1, 2}}, {Scenario: "reload-3apps", Depth: 5, MapModes: []int{1, 2}}, {Scenario: "reload-quota-delay", Depth: 6, MapModes: []int{1}}},
 		QuickBudget: 150 * time.Second, ThoroughBudget: 12 * time.Minute,
 		Assumptions: []string{"static queue fields are compared with a fresh scheduler loaded from the same document (differential oracle); the leaf/parent flag of a converted queue is not compared", "single partition"}})
 }
